@@ -38,9 +38,14 @@ def _map(ex, self, args, kw):
     return sym_map(ex, f, items)
 
 
-for _m in ("map", "imap"):
-    from .exec import METHODS
-    METHODS[("Record:Pool", _m)] = _map
+def _imap(ex, self, args, kw):
+    """imap returns an ITERATOR over the ordered results"""
+    return SeqIter(_map(ex, self, args, kw), 0)
+
+
+from .exec import METHODS
+METHODS[("Record:Pool", "map")] = _map
+METHODS[("Record:Pool", "imap")] = _imap
 
 
 @method("Record:Pool", "__enter__")
